@@ -1,6 +1,6 @@
 module verifharness
 
-go 1.17
+go 1.21
 
 require github.com/corazawaf/libinjection-go v0.0.0
 
